@@ -19,7 +19,7 @@ RULE = (
     '6x6 with arbitrary rise-side quality values (with and without ties) and '
     'arbitrary storm labels. Level 2 (disambiguate_matching): disjoint '
     'storms and rises on an integer line, one candidate per overlapping '
-    'pair, shuffled. Level 3: contention-rich records through classify, '
+    'pair, shuffled (a third of them on a long line: storms and rises lasting 1 to 3000 steps). Level 3: contention-rich records through classify, '
     'candidate graph recomputed from the loaded tables by the reference '
     'model. Oracle: result is a one-to-one subset of the candidates; no '
     'blocking pair (brute force); without ties it equals the storm-optimal '
@@ -212,6 +212,56 @@ def geometric(draw):
     return {'pairs': pairs, 'perm': list(perm), 'perm2': list(perm2)}
 
 
+LONG_RUNS = [1, 2, 3, 10, 11, 12, 1000, 1001, 1200, 1500, 1600, 3000]
+
+
+@st.composite
+def geometric_long(draw):
+    """The same on a long line: storms and rises that last one step or
+    thousands (a front that rains for a day on one-minute data), drawn as
+    run lengths."""
+    def intervals(extra, lengths=LONG_RUNS, gaps=(1, 2, 3, 10, 1200),
+                  start=None, count=None):
+        out = []
+        at = draw(st.integers(0, 5)) if start is None else start
+        for _ in range(count or draw(st.integers(1, 5))):
+            length = draw(st.sampled_from(lengths))
+            out.append((at, at + length + extra))
+            at += length + extra + draw(st.sampled_from(gaps))
+        return out
+    shape = draw(st.sampled_from(['free', 'long-storm', 'long-rise']))
+    short = [1, 2, 3, 10, 11, 12]
+    far = (1, 3, 1000, 1200, 2000)
+    if shape == 'free':
+        storms = intervals(0)
+        rises = intervals(1)
+    elif shape == 'long-storm':
+        # one storm lasting thousands of steps over several short rises far
+        # apart (and perhaps short storms around competing for them)
+        a = draw(st.integers(0, 20))
+        long_one = (a, a + draw(st.sampled_from([1500, 3000, 5000])))
+        rises = intervals(1, short, far, start=a + draw(st.integers(0, 3)),
+                          count=draw(st.integers(2, 4)))
+        storms = sorted([long_one] + intervals(
+            0, short, far, start=long_one[1] + draw(st.integers(1, 5)),
+            count=draw(st.integers(0, 2))))
+    else:
+        a = draw(st.integers(0, 20))
+        long_one = (a, a + draw(st.sampled_from([1500, 3000, 5000])))
+        storms = intervals(0, short, far,
+                           start=max(0, a - draw(st.integers(0, 3))),
+                           count=draw(st.integers(2, 4)))
+        rises = sorted([long_one] + intervals(
+            1, short, far, start=long_one[1] + draw(st.integers(1, 5)),
+            count=draw(st.integers(0, 2))))
+    pairs = [[list(s), list(r)] for s in storms for r in rises
+             if max(s[0], r[0]) < min(s[1], r[1] - 1)]
+    perm = draw(st.permutations(range(len(pairs)))) if pairs else []
+    perm2 = draw(st.permutations(range(len(pairs)))) if pairs else []
+    return {'pairs': pairs, 'perm': list(perm), 'perm2': list(perm2),
+            'long': True}
+
+
 def check_geometric(case):
     dm = tree.mod('classify').disambiguate_matching
     pairs = case['pairs']
@@ -233,6 +283,8 @@ def check_geometric(case):
                   for s, r in edges}
     rise_pref = {(r, s): -abs(r[0] - s[0]) for s, r in edges}
     labels = verify_instance(edges, storm_pref, rise_pref, result)
+    if case.get('long'):
+        labels.add('runs-up-to-3000-steps')
     if 'ties' not in labels:
         other = run(case['perm2'])
         if other != result:
@@ -405,7 +457,9 @@ PARTS = [
     Part('fsm_random', check_fsm, strategy=lambda tier: random_instances(),
          budget={'quick': 750, 'thorough': 20000},
          describe='find_stable_matching on random graphs <= 6x6, ties'),
-    Part('geometric', check_geometric, strategy=lambda tier: geometric(),
+    Part('geometric', check_geometric,
+         strategy=lambda tier: st.one_of(geometric(), geometric(),
+                                         geometric_long()),
          budget={'quick': 250, 'thorough': 5000},
          describe='disambiguate_matching on interval geometry'),
     Part('records', check_records,
